@@ -303,9 +303,25 @@ func genRandom(t *common.Trace, e common.Engine, r *common.Rng, thorough bool) {
 			do("token tok%d %s %d %s %s %s", i, common.Pick(r, "grpA", "grpB", "-"), r.Intn(2),
 				common.Pick(r, "tadm", "-"), common.Pick(r, "admin", "op", "admin+op"), common.Pick(r, "ok", "ok", "ok", "expired", "noexp"))
 		}
+		// some groups (and subgroups, which exist only below an auto-subgroups parent) are live in memory:
+		// the API then authenticates and reads through the cached-description branch of group.GetDescription
+		liveOne := func() {
+			g := common.Pick(r, groupPool...)
+			if r.Intn(3) == 0 {
+				g = common.Pick(r, "grpA/room", "grpB/sub", "grpA/sub/deep")
+			}
+			res := do("live %s", g)
+			t.Count("rand:live:" + res)
+		}
+		for n := r.Weighted(40, 30, 20, 10); n > 0; n-- {
+			liveOne()
+		}
 		nreq := r.Range(20, 60)
 		nrnd := 0
 		for i := 0; i < nreq; i++ {
+			if r.Intn(15) == 0 {
+				liveOne()
+			}
 			g := common.Pick(r, groupPool...)
 			if r.Intn(4) != 0 {
 				g = existing[r.Intn(len(existing))]
@@ -769,7 +785,7 @@ func genCrash(t *common.Trace, e common.Engine) {
 func gen(t *common.Trace, e common.Engine, r *common.Rng, thorough bool) {
 	// common.Rng streams of neighbouring seeds are shifted copies of each other; re-seed from an output
 	r = common.NewRng(r.U64())
-	parts := os.Getenv("VERIF_API_PARTS") // debugging aid: comma-separated subset of table,rand,legacy,il,crash,race
+	parts := os.Getenv("VERIF_API_PARTS") // debugging aid: comma-separated subset of table,rand,legacy,il,crash,race,shapes,fault,live
 	want := func(p string) bool { return parts == "" || strings.Contains(","+parts+",", ","+p+",") }
 	if want("table") {
 		genTable(t, e, r, thorough)
@@ -785,6 +801,15 @@ func gen(t *common.Trace, e common.Engine, r *common.Rng, thorough bool) {
 	}
 	if want("crash") {
 		genCrash(t, e)
+	}
+	if want("shapes") {
+		genShapes(t, e)
+	}
+	if want("fault") {
+		genFaults(t, e, r, thorough)
+	}
+	if want("live") {
+		genLive(t, e, r, thorough)
 	}
 	if want("race") {
 		t.Case("race")
